@@ -597,6 +597,9 @@ class GenTr(FxTr):
                 raise Unsupported(f"the object local {s.targets[0].id} is assigned other than by `= yield <request>` or a "
                                   f"listed creating effect")
             return self.block(rest, env2, k)
+        if isinstance(s, (ast.Assign, ast.AugAssign)) and self.contains_draw(s.value):
+            import copy as _copy                                 # FxTr.hoist_draws rewrites the tree it is given, and a
+            stmts = [_copy.deepcopy(s)] + rest                   # generator body is translated more than once
         return super().block(stmts, env, k)
 
     def do_yield(self, s, target, req, rest, env):
